@@ -217,7 +217,22 @@ static void exec_op(World *w, const json &op) {
 			// the common key twice - outside the protocol, see DESIGN.md C08)
 			if (o == "UpdKey" && w->have[i].count(from)) return;
 			std::vector<Mpz> m = w->pl[from].pub;
-			bool applied = mutate(m, op.value("pos", 0), op.value("mut", std::string("none")));
+			bool applied;
+			if (op.value("mut", std::string("none")) == "forged") {
+				// a key outside the group with an arithmetically valid proof: -g^x with an even challenge
+				BarnettSmartVTMF_dlog *A = w->pl[from].vt;
+				Mpz key, v, t, c, r;
+				mpz_sub(key, GP, A->h_i);
+				for (int tries = 0; tries < 64; tries++) {
+					mpz_set_ui(v, 1 + rnd(mpz_get_ui(GQ) - 1));
+					mpz_powm(t, GG, v, GP);
+					tmcg_mpz_shash(c, 5, (mpz_srcptr)GP.v, (mpz_srcptr)GQ.v, (mpz_srcptr)GG.v, (mpz_srcptr)key.v, (mpz_srcptr)t.v);
+					if (mpz_even_p(c.v)) break;
+				}
+				mpz_mul(r, c, A->x_i); mpz_sub(r, v, r); mpz_mod(r, r, GQ);
+				m.clear(); m.push_back(key); m.push_back(c); m.push_back(r);
+				applied = true; hcalls = json::array();
+			} else applied = mutate(m, op.value("pos", 0), op.value("mut", std::string("none")));
 			ev["from"] = from; ev["mut"] = op.value("mut", std::string("none")); ev["pos"] = op.value("pos", 0); ev["applied"] = applied;
 			std::istringstream is(print_nums(m));
 			ev["msg"] = nums_j(m);
@@ -484,6 +499,7 @@ static json random_schedule(unsigned long seed, long x) {
 		for (size_t a = 0; a + 1 < others.size(); a++) { size_t b = a + rnd(others.size() - a); std::swap(others[a], others[b]); }
 		for (size_t a = 0; a < others.size(); a++) {
 			size_t j = others[a];
+			if (rnd(100) < F.keymut / 2) add({{"op", "UpdKey"}, {"i", i}, {"from", j}, {"mut", "forged"}});
 			for (size_t rep = 0; rep < 3; rep++) if (rnd(100) < F.keymut) add({{"op", "UpdKey"}, {"i", i}, {"from", j}, {"mut", MUTS[1 + rnd(NMUTS - 1)]}, {"pos", rnd(3)}});
 			if (rnd(100) < F.keychurn / 2) add({{"op", "RemKey"}, {"i", i}, {"from", j}});
 			add({{"op", "UpdKey"}, {"i", i}, {"from", j}});
@@ -575,6 +591,16 @@ static json random_schedule(unsigned long seed, long x) {
 				}
 			}
 			sid++;
+		}
+	}
+	if (FOCUS == "c02" && x == 0) {        // every index vector of length n over 0..n-1 for n <= 4
+		for (size_t n = 1; n <= 4; n++) {
+			size_t total = 1; for (size_t k = 0; k < n; k++) total *= n;
+			for (size_t code = 0; code < total; code++) {
+				json pi = json::array(); size_t c = code;
+				for (size_t k = 0; k < n; k++) { pi.push_back(c % n); c /= n; }
+				add({{"op", "ImportSS"}, {"pi", pi}});
+			}
 		}
 	}
 	if (FOCUS == "c02" || FOCUS == "all") {
